@@ -98,6 +98,21 @@ def build_jobs(names, escapes, quick, rng):
             for hd in (False, True):
                 for sd in (False, True):
                     add_direct("archive", rel, proto=4, directory=True, overwrite=False, hp=hp, hd=hd, stopdel=sd)
+    # ---- deeper names than the model's 3 elements: an element with an embedded separator can hide
+    # depth that later '..' elements climb back out of, once the receiver has cached a local name
+    # for the path id (json: primed with an honest ["d"] entry first; archive: the top entry)
+    deep = [["d/e", "..", "..", "r"], ["d", "e/f", "..", "..", "..", "r"], ["a/b/c", "..", "..", "..", "r"],
+            ["d/e", "..", "..", "..", "r"], ["x", "y/z", "..", "..", "..", "canary"], ["d/e/f", "..", "..", "r"]]
+    for rel in deep:
+        for proto, directory, site in cfg_combos():
+            if site == "json" and (directory or proto >= 3):
+                for ow in (False, True):
+                    for hd in (False, True):
+                        for primed in (False, True):
+                            add("direct", "json", rel, proto=proto, directory=directory, overwrite=ow, hd=hd, primed=primed, deep=True)
+        for hp in (0, 1):
+            for hd in (False, True):
+                add("direct", "archive", rel, proto=4, directory=True, overwrite=False, hp=hp, hd=hd, deep=True)
     # ---- e2e / crafted: a sample of the names (stratified by kind), every configuration
     bykind = {}
     for rel in names:
